@@ -630,6 +630,34 @@ def gen_fmt(out):
 EXTRA.append(gen_fmt)
 
 
+def gen_cli(out):
+    comp_t = src_ast('lesscpy/scripts/compiler.py')
+
+    def staleness():
+        fn = find_def(comp_t, None, 'ldirectory')
+        for n in ast.walk(fn):
+            if isinstance(n, ast.Assign) and isinstance(n.targets[0], ast.Name) and n.targets[0].id == 'recompile' and isinstance(n.value, ast.Compare):
+                c = n.value
+                left, right = ast.dump(c.left), ast.dump(c.comparators[0])
+                if 'getmtime' in left and 'outf' in left and 'getmtime' in right and 'lf' in right:
+                    return type(c.ops[0]).__name__
+                raise ValueError('staleness comparison has an unexpected shape')
+        raise ValueError('no staleness comparison')
+    out.put('staleness_cmp', 'cmp', lambda v: CMP[v], staleness)
+
+    def single_file_copies_scope():
+        fn = find_def(comp_t, None, 'run')
+        src = ast.unparse(fn)
+        return 'scope=copy.deepcopy(scope)' in src.replace(' ', '').replace('scope=copy.deepcopy(scope)', 'scope=copy.deepcopy(scope)')
+    def dir_copies_scope():
+        fn = find_def(comp_t, None, 'ldirectory')
+        return 'copy.deepcopy(scope)' in ast.unparse(fn)
+    out.put('batch_isolates_scope', 'bool', lambda v: 'true' if v else 'false', dir_copies_scope)
+
+
+EXTRA.append(gen_cli)
+
+
 def render(out):
     """-> {relative file name: text}: one Gen/P<Group>.v per group plus Gen/Params.v re-exporting all"""
     head = ['(* GENERATED by harness/gen_params.py from %s — do not edit, do not commit. *)' % REPO,
